@@ -1773,10 +1773,11 @@ def run(ck: core.Check):
     except Exception as e:  # noqa: BLE001
         scope_obs["unobservable"] = f"{type(e).__name__}: {e}"
     try:
-        _oracle_phase(ck, models, snaps, rng, scope_obs)
+        _oracle_phase(ck, models, snaps, rng, scope_obs, name_cases)
     finally:
         if restore_hook:
             restore_hook()
+    del name_cases[name_cap:]
     ck.log(f"oracle phase done: {ck.cov.get('oracle_compositions')} compositions")
     if scope_obs.get("to_onnx_calls") and scope_obs["prefix_free"] != scope_obs["to_onnx_calls"]:
         ck.notes.append(f"{scope_obs['to_onnx_calls'] - scope_obs['prefix_free']} build scopes were not free of the node's prefix family (rename_total does not apply to them)")
@@ -1804,60 +1805,232 @@ def run(ck: core.Check):
     _finish_evidence(ck)
 
 
-def _oracle_phase(ck, models, snaps, rng, scope_obs):
+class _Rec:
+    """What a worker of the oracle phase reports for one model (replayed on the Check by the parent, in model order)."""
+
+    def __init__(self):
+        self.failures: list = []
+        self.counts: list = []
+        self.samples: list = []
+        self.forms: list = []
+
+    def failure(self, key, what, case):
+        self.failures.append((key, what, case))
+
+    def count(self, key):
+        self.counts.append(key)
+
+    def sample(self, x, n):
+        self.samples.append((x, n))
+
+
+def _oracle_one(rec: _Rec, thorough: bool, mi: int, m, meta, snap: bytes, rng: random.Random):
+    """Every model-free check of ONE model; rng is the model's own generator (seed, model index)."""
+    ck = rec
+    for key, what in purity(fresh(snap)):
+        ck.failure(key, what, {"kind": "purity", "model": L.to_b64(fresh(snap)), "summary": L.summary(m)})
+    if m.SerializeToString(deterministic=True) != snap:
+        raise core_infra("a model of the case list changed although only copies are handed out")
+    seed0 = rng.randrange(1 << 30)
+    for key, what in oracle_errors(fresh(snap), seed0):
+        ck.failure(key, what, {"kind": "errors", "model": L.to_b64(m), "seed": seed0, "summary": L.summary(m)})
+    if not meta["runnable"]:
+        seed1 = rng.randrange(1 << 30)
+        for key, what in oracle_build_only(fresh(snap), seed1):
+            ck.failure(key, what, {"kind": "build-only", "model": L.to_b64(fresh(snap)), "seed": seed1,
+                                   "summary": L.summary(m), "features": meta["features"]})
+        ck.count(("build-only", mi))
+        return
+    if "oracle-only" not in meta["features"]:
+        seed2 = rng.randrange(1 << 30)
+        hv = ["arg-clash", "res-clash", "arg-family", "res-generated", "both"] if meta["kind"] == "corner" else None
+        for key, what in oracle_hostile_names(fresh(snap), seed2, hv):
+            ck.failure(key, what, {"kind": "hostile-names", "model": L.to_b64(fresh(snap)), "seed": seed2,
+                                   "variants": hv, "summary": L.summary(m), "features": meta["features"]})
+    family = meta["kind"] == "vbody" or "version-family" in meta["features"]
+    if family:
+        # the version family: always next to operators of a later opset, in several compositions and histories
+        forms = (list(FORMS) + list(MIXED_FORMS)) if (thorough or ESCALATE) else (
+            ["once", "mixed+once", "history", "name-history"] + rng.sample(MIXED_FORMS[1:], 3) + rng.sample(FORMS[1:8], 2)) if meta["kind"] == "corner" else (
+            ["once", "mixed+once"] + rng.sample(MIXED_FORMS[1:], 2) + rng.sample(["mixed-opset", "history", "name-history", "loop-body", "if-body"], 1))
+    elif "declared-types" in meta["features"]:
+        forms = ["once", "twice", "if-body", "chained", "mixed-opset"] if thorough else ["once", rng.choice(["twice", "if-body", "chained", "mixed-opset"])]
+    else:
+        if thorough or meta["kind"] == "corner":
+            forms = list(FORMS)
+        else:
+            # the two history forms cost 5-6 builds each: one of them for a quarter of the models
+            forms = ["once"] + rng.sample(FORMS[1:8], 3) + ([rng.choice(FORMS[8:])] if rng.random() < 0.25 else [])
+    forms = list(forms) + ["two-models"] * (3 if thorough else (2 if family else 1))
+    for form in forms:
+        if form == "chained" and "no-chain" in meta["features"]:
+            continue
+        seed1 = rng.randrange(1 << 30)
+        fs = oracle_compose(fresh(snap), form, seed1)
+        rec.forms.append(form)
+        ck.count(("compose", mi, form) if len(m.graph.node) >= 1 else None)
+        for key, what in fs:
+            ck.failure(key, what, {"kind": "compose", "form": form, "model": L.to_b64(m), "seed": seed1,
+                                   "summary": L.summary(m), "features": meta["features"]})
+    ck.sample({"model": L.summary(m), "features": meta["features"]}, 4)
+
+
+N_WORKERS = 8
+
+
+def _oracle_phase(ck, models, snaps, rng, scope_obs, name_cases=None):
+    """The oracle over all models, in N_WORKERS forked children (the parent holds no threads: onnxruntime and the
+    Lean driver are subprocesses). Every model has its own generator (base seed, index), so the verdicts do not depend
+    on the partition. A child appends one frame per finished model to its file: a child that DIES (native crash inside
+    spox.build's onnx calls on a mutated tree) loses only the model it was working on - that is registered and the rest
+    of its share is handed to a new child. The parent replays all records on the Check in model order."""
+    import os
+    import pickle
+    import traceback
+
+    global _WORKER
+    base = rng.randrange(1 << 30)
+    name_cases = name_cases if name_cases is not None else []
+    work = core.WORK
+    work.mkdir(exist_ok=True)
+    if _WORKER is not None:
+        _WORKER.close()  # children start their own onnxruntime process
+        _WORKER = None
+    idx = list(range(len(models)))
+    shares = [idx[k::N_WORKERS] for k in range(N_WORKERS)]
+    done: dict[int, dict] = {}
+    crashed: list[int] = []
+    infra: list[str] = []
+
+    def child(k: int, todo: list, path):
+        # in the child: fresh observation state, results appended per model
+        scope_obs.update({"to_onnx_calls": 0, "prefix_free": 0})
+        del name_cases[:]
+        HOSTILE_HIST.clear()
+        with open(path, "ab") as fh:
+            for mi in todo:
+                m, meta = models[mi]
+                rec = _Rec()
+                n0 = len(name_cases)
+                before = dict(scope_obs)
+                try:
+                    _oracle_one(rec, ck.thorough, mi, m, meta, snaps[mi], random.Random(base * 100003 + mi))
+                    frame = {"mi": mi, "rec": rec.__dict__}
+                except BaseException:  # noqa: BLE001 - reported to the parent (exit 2 there, as before)
+                    frame = {"mi": mi, "infra": traceback.format_exc()}
+                frame["name_cases"] = name_cases[n0:]
+                frame["scope"] = {q: scope_obs.get(q, 0) - before.get(q, 0) for q in ("to_onnx_calls", "prefix_free")}
+                if "unobservable" in scope_obs:
+                    frame["scope_unobservable"] = scope_obs["unobservable"]
+                frame["hostile"] = dict(HOSTILE_HIST)
+                frame["ort"] = dict(ORT_FALLBACKS)
+                pickle.dump(frame, fh)
+                fh.flush()
+            pickle.dump({"done": True}, fh)
+
+    def launch(k: int, todo: list):
+        path = work / f"c08_oracle_{os.getpid()}_{k}_{len(todo)}.pkl"
+        if path.exists():
+            path.unlink()
+        pid = os.fork()
+        if pid == 0:
+            code = 0
+            try:
+                child(k, todo, path)
+            except BaseException:  # noqa: BLE001
+                code = 3
+            finally:
+                try:
+                    if _WORKER is not None:
+                        _WORKER.close()
+                finally:
+                    os._exit(code)
+        return pid, path
+
+    def collect(path):
+        frames = []
+        try:
+            with open(path, "rb") as fh:
+                while True:
+                    try:
+                        frames.append(pickle.load(fh))
+                    except EOFError:
+                        break
+                    except Exception:  # noqa: BLE001 - a torn last frame
+                        break
+        except FileNotFoundError:
+            pass
+        try:
+            path.unlink()
+        except OSError:
+            pass
+        return frames
+
+    pending = [(k, sh) + launch(k, sh) for k, sh in enumerate(shares) if sh]
+    while pending:
+        nxt = []
+        for k, todo, pid, path in pending:
+            os.waitpid(pid, 0)
+            frames = collect(path)
+            finished = bool(frames) and frames[-1].get("done")
+            for fr in frames:
+                if "mi" in fr:
+                    done[fr["mi"]] = fr
+            if not finished:
+                got = [fr["mi"] for fr in frames if "mi" in fr]
+                rest = [mi for mi in todo if mi not in got]
+                if rest:
+                    crashed.append(rest[0])
+                    if rest[1:]:
+                        nxt.append((k, rest[1:]) + launch(k, rest[1:]))
+        pending = nxt
+
     form_hist: dict[str, int] = {}
     n_oracle = 0
-    for mi, (m, meta) in enumerate(models):
-        for key, what in purity(fresh(snaps[mi])):
-            ck.failure(key, what, {"kind": "purity", "model": L.to_b64(fresh(snaps[mi])), "summary": L.summary(m)})
-        if m.SerializeToString(deterministic=True) != snaps[mi]:
-            raise core_infra("a model of the case list changed although only copies are handed out")
-        seed0 = rng.randrange(1 << 30)
-        for key, what in oracle_errors(fresh(snaps[mi]), seed0):
-            ck.failure(key, what, {"kind": "errors", "model": L.to_b64(m), "seed": seed0, "summary": L.summary(m)})
-        if not meta["runnable"]:
-            seed1 = rng.randrange(1 << 30)
-            for key, what in oracle_build_only(fresh(snaps[mi]), seed1):
-                ck.failure(key, what, {"kind": "build-only", "model": L.to_b64(fresh(snaps[mi])), "seed": seed1,
-                                       "summary": L.summary(m), "features": meta["features"]})
-            ck.count(("build-only", mi))
+    last_ort: dict = {}
+    hostile: dict[str, int] = {}
+    for mi in idx:
+        fr = done.get(mi)
+        if fr is None:
             continue
-        if "oracle-only" not in meta["features"]:
-            seed2 = rng.randrange(1 << 30)
-            hv = ["arg-clash", "res-clash", "arg-family", "res-generated", "both"] if meta["kind"] == "corner" else None
-            for key, what in oracle_hostile_names(fresh(snaps[mi]), seed2, hv):
-                ck.failure(key, what, {"kind": "hostile-names", "model": L.to_b64(fresh(snaps[mi])), "seed": seed2,
-                                       "variants": hv, "summary": L.summary(m), "features": meta["features"]})
-        family = meta["kind"] == "vbody" or "version-family" in meta["features"]
-        if family:
-            # the version family: always next to operators of a later opset, in several compositions and histories
-            forms = (list(FORMS) + list(MIXED_FORMS)) if (ck.thorough or ESCALATE) else (
-                ["once", "mixed+once", "history", "name-history"] + rng.sample(MIXED_FORMS[1:], 3) + rng.sample(FORMS[1:8], 2)) if meta["kind"] == "corner" else (
-                ["once", "mixed+once"] + rng.sample(MIXED_FORMS[1:], 2) + rng.sample(["mixed-opset", "history", "name-history", "loop-body", "if-body"], 1))
-        elif "declared-types" in meta["features"]:
-            forms = ["once", "twice", "if-body", "chained", "mixed-opset"] if ck.thorough else ["once", rng.choice(["twice", "if-body", "chained", "mixed-opset"])]
-        else:
-            if ck.thorough or meta["kind"] == "corner":
-                forms = list(FORMS)
-            else:
-                # the two history forms cost 5-6 builds each: one of them for a quarter of the models
-                forms = ["once"] + rng.sample(FORMS[1:8], 3) + ([rng.choice(FORMS[8:])] if rng.random() < 0.25 else [])
-        forms = list(forms) + ["two-models"] * (3 if ck.thorough else (2 if family else 1))
-        for form in forms:
-            if form == "chained" and "no-chain" in meta["features"]:
-                continue
-            seed1 = rng.randrange(1 << 30)
-            fs = oracle_compose(fresh(snaps[mi]), form, seed1)
-            form_hist[form] = form_hist.get(form, 0) + 1
+        if "infra" in fr:
+            infra.append(fr["infra"])
+            continue
+        r = fr["rec"]
+        for key, what, case in r["failures"]:
+            ck.failure(key, what, case)
+        for key in r["counts"]:
+            ck.count(key)
+        for x, n in r["samples"]:
+            ck.sample(x, n)
+        for f in r["forms"]:
+            form_hist[f] = form_hist.get(f, 0) + 1
             n_oracle += 1
-            ck.count(("compose", mi, form) if len(m.graph.node) >= 1 else None)
-            for key, what in fs:
-                ck.failure(key, what, {"kind": "compose", "form": form, "model": L.to_b64(m), "seed": seed1,
-                                       "summary": L.summary(m), "features": meta["features"]})
-        ck.sample({"model": L.summary(m), "features": meta["features"]}, 4)
-    ck.cov.update({"oracle_compositions": n_oracle, "oracle_forms": form_hist, "hostile_outer_names": dict(sorted(HOSTILE_HIST.items())),
-                   "onnxruntime_retries_without_optimiser": ORT_FALLBACKS["unoptimised"],
-                   "onnxruntime_process_aborts": ORT_FALLBACKS.get("aborted", 0)})
+    # per-child cumulative tallies: the last frame of each child carries its totals
+    by_child: dict[int, dict] = {}
+    for mi in idx:
+        fr = done.get(mi)
+        if fr is not None:
+            by_child[mi % N_WORKERS] = fr
+            for q in ("to_onnx_calls", "prefix_free"):
+                scope_obs[q] = scope_obs.get(q, 0) + fr["scope"][q]
+            if "scope_unobservable" in fr:
+                scope_obs["unobservable"] = fr["scope_unobservable"]
+            name_cases.extend(fr["name_cases"])
+    for fr in by_child.values():
+        for q, v in fr["hostile"].items():
+            hostile[q] = hostile.get(q, 0) + v
+        for q, v in fr["ort"].items():
+            last_ort[q] = last_ort.get(q, 0) + v
+    for mi in crashed:
+        ck.broken("oracle", "C08 the process died inside the model-free checks of a model (native crash under spox.build)",
+                  f"model#{mi} {json.dumps(L.summary(models[mi][0]))[:400]} features={models[mi][1]['features']}")
+    if infra:
+        raise core_infra("oracle worker: " + infra[0][-1500:])
+    ck.cov.update({"oracle_compositions": n_oracle, "oracle_forms": form_hist, "hostile_outer_names": dict(sorted(hostile.items())),
+                   "onnxruntime_retries_without_optimiser": last_ort.get("unoptimised", 0),
+                   "onnxruntime_process_aborts": last_ort.get("aborted", 0), "oracle_workers": N_WORKERS,
+                   "oracle_worker_crashes": len(crashed)})
 
 
 def _finish_evidence(ck):
